@@ -624,6 +624,8 @@ class Enc:
                 cf = int_field(co, nz)
                 if self.free and cf and self.rng.random() < 0.15:
                     cf = [cf[0] & 0x80, 0] + [cf[0] & 0x7F] + cf[1:]
+                elif self.free and co == 0 and not nz and self.rng.random() < 0.4:
+                    cf = [0] * self.rng.randint(1, 3)          # positive zero spelled out: sign bit clear, magnitude 0
                 e = self.tl(5, varint(ex) + cf)
         elif k == "ts":
             e = self.tl(6, ts_body(body[1]))
